@@ -142,6 +142,7 @@ def correspond(ctx):
             j = k - (count - 4)
             p = geomgen.fam_periodic_arcs(rng, ["fee", "feh", "fem"][k % 3], True, order=["left-first", "right-first"][j % 2],
                                           segs=[(5.0, 15.0), (15.0, 5.0)][j // 2])
+        p = geomgen.with_meshed_side(p, k)
         p["no_acute_angles"] = p["features"][0] in ("circle-in-square", "annulus", "stadium", "rect-box", "rect-family")
         for ft in p.get("features", []):
             feats[ft] = feats.get(ft, 0) + 1
